@@ -22,9 +22,11 @@ func init() { register("C15", runC15Deep) }
 //    messages agree in everything but the fresh id, and prints the first one together with its
 //    Info (nil?) and TrafficBytes. Independent oracle: the generator varies exactly one field,
 //    so the expected answer is known without the model (C15.fields.lost / C15.fields.leak).
-// 2. Replay of the kernel-checked counter-example flush_silences_top_refuted and random variants
-//    (ordinary `c15 cap=…` scenario lines): responses retired into the Top port's outgoing buffer
-//    before a flush are still handed to the requester after the acknowledgement.
+// 2. The scenario of the Lean witness residueEvs and random variants (ordinary `c15 cap=…` scenario
+//    lines): responses retired into the Top port's outgoing buffer before a flush. Before repair
+//    c5e97df8 (dropUndeliveredMsgs) they were still handed to the requester after the
+//    acknowledgement (flush_silences_top_before_fix_refuted); on the repaired ROB nothing leaves
+//    the Top port after the acknowledgement (flush_silences_top) — oracle C15.flush.top-residue.
 
 type c15FieldReq struct {
 	kind               string
@@ -220,7 +222,7 @@ func c15VaryField(rng *Rng, a c15FieldReq) (c15FieldReq, string) {
 }
 
 // residue scenario: n requests answered and retired into the Top port (capacity k >= n) before a
-// flush; after the acknowledgement the requester still receives all n responses.
+// flush; after the acknowledgement the requester tries to take n responses and must get none.
 func c15ResidueLine(n, k, width int, restart bool) string {
 	ops := []string{}
 	for i := 0; i < n; i++ {
@@ -264,10 +266,11 @@ func runC15Deep(r *Run, rng *Rng, replay string) {
 		last := e.out[len(e.out)-1]
 		if strings.HasPrefix(last, "T[") && last != "T[]" {
 			r.CountN("c15.top-residue-after-flush-ack", strings.Count(last, ">"))
+			e.fail("C15.flush.top-residue", "%d response(s) to requests accepted before the flush left the Top port after the acknowledgement: %s", strings.Count(last, ">"), last)
 		} else {
 			r.Count("c15.top-residue-none")
 		}
-		// none of these requests was discarded, so each must be answered exactly once
+		// none of these requests was discarded: the ROB sent each response exactly once into the Top port
 		for i, q := range e.reqs {
 			if q.accepted && !q.discard && q.answers != 1 {
 				e.fail("C15.once.missing", "request %d retired before the flush, answered %d times", i, q.answers)
